@@ -212,6 +212,11 @@ PROG += [
 ]
 
 FN += [
+    (lints.child_status_conjoined, "def f(cmd, name):\n    ret, output = spawn.spawn_get_output(cmd, collect_fds=(2,))\n    if ret and output:\n        raise IpcCommandError(f'{name} failed: {output[0]}')\n",
+     "def f(cmd, name):\n    ret, output = spawn.spawn_get_output(cmd, collect_fds=(2,))\n    if ret:\n        raise IpcCommandError(f'{name} failed: {output[:1]}')\n"),
+]
+
+FN += [
     (lints.quantity_or_default, "import time\ndef f(t, fsobj):\n    t.mtime = fsobj.mtime or time.time()\n", "import time\ndef f(t, fsobj):\n    t.mtime = fsobj.mtime if fsobj.mtime is not None else time.time()\n"),
 ]
 
